@@ -107,6 +107,19 @@ TABLE = {
             "Lean 4 proof (induction over expressions, permutation lemmas) + correspondence", "DESIGN.md 7 (C08)",
             "SymPy's simplification and lambdify are a contract boundary (registers that cancel identically are outside "
             "the property and not generated)."),
+    "C10": (True,
+            "Theorems (Props/C10.lean): for every offending symbol, message and chain of parent contexts satisfying the "
+            "context invariant (declaration contexts have their type and name children; the 'missing modes' message "
+            "arises only when the statement has its operation child), the error listener raises BlackbirdSyntaxError "
+            "carrying the reported line and the 1-based column; without the invariant the model exhibits the "
+            "AttributeError / UnboundLocalError Python would raise; every printed script passes the model's syntax "
+            "stage under every layout. Partial: ANTLR's ALL(*) prediction and error strategy are not modelled; 'passes "
+            "iff sentence of the grammar' and 'reported token not earlier than the first bad token' are decided per "
+            "input by an Earley recogniser over src/blackbird.g4 on the shipped lexer's tokens (single-token edits, "
+            "truncations, soups); the listener model is compared with every real listener call and the invariant is "
+            "checked on each.",
+            "Lean 4 proof (decision tree, all contexts) + Earley-based oracle + listener correspondence", "DESIGN.md 7 (C10)",
+            "ANTLR runtime is a contract boundary."),
     "C11": (True,
             "Theorems (Props/C11.lean): an expression that mentions an undefined name at any depth never evaluates "
             "(and the use itself is reported with identifier and token position); lifted to every slot: mode, "
@@ -142,6 +155,16 @@ TABLE = {
             "match(t, reorder(t(**v))) recovers v; five structural edits rejected.",
             "Lean 4 proof (field arithmetic with Mathlib) + correspondence", "DESIGN.md 7 (C17)",
             "SymPy's solve and networkx's VF2 are contract boundaries; exact comparison of recovered floats is an open finding."),
+    "C18": (True,
+            "Theorem (Props/C18.lean, Lemmas/ParseScript.lean): for every script (metadata with options and includes, "
+            "scalar and array declarations, statements with every argument form and bracket style, loops) and EVERY "
+            "layout of line ends - before the metadata, between metadata lines, before includes, between items, blank "
+            "lines inside loop bodies, at the end (final newline or not) - the model parser returns exactly the script, "
+            "hence the same loaded program. Partial at character level: that spaces/comments produce no token, "
+            "LF/CRLF/CR give NEWLINE and tab/four spaces give TAB is checked by comparing the model lexer (tied to the "
+            "grammar file by C14) with the shipped lexer on every variant, plus kernel-evaluated examples.",
+            "Lean 4 proof (parser inverts printer under all layouts) + lexer correspondence", "DESIGN.md 7 (C18)",
+            "Scripts ending in an array row without final newline: open finding C18-array-row-at-eof."),
     "C19": (True,
             "Theorems (Props/C19.lean) quantified over all iteration orders of the sets involved: the outcome of a load "
             "is independent of the order (include call-site mode maps go through a sort; proved via permutation "
